@@ -44,6 +44,8 @@ def cfgs(tier):
         dict(base, M=[2], NP=2, maxiter=2, restol=-1.0, blocks=2, initial_guess='zero'),
         dict(base, M=[2], NP=2, maxiter=2, restol=-1.0, blocks=2, initial_guess='random'),
         dict(base, sweeper='imex_1st_order', M=[2], NP=2, maxiter=2, restol=-1.0, blocks=2),
+        # stopping by increment: a convergence controller that registers extra level status variables (increment, embedded estimate) is loaded
+        dict(base, M=[2], NP=1, maxiter=2, restol=-1.0, e_tol=2e-2, blocks=2),
     ]
     if tier != 'quick':
         out += [
@@ -53,6 +55,8 @@ def cfgs(tier):
             dict(base, M=[2], NP=4, maxiter=1, restol=-1.0, blocks=1),
             dict(base, M=[2], NP=2, maxiter=3, restol=1e-3, blocks=2, jac=False),
             dict(base, M=[3, 2, 1], NP=1, maxiter=2, restol=-1.0, blocks=2, initial_guess='random'),
+            dict(base, M=[2], NP=1, maxiter=3, restol=-1.0, e_tol=2e-2, blocks=3),
+            dict(base, M=[2], NP=2, maxiter=3, restol=-1.0, e_tol=2e-2, blocks=2, jac=False),
         ]
     return out
 
